@@ -3,6 +3,9 @@
 package extendeddaemonset
 
 import (
+	"k8s.io/apimachinery/pkg/util/intstr"
+	"strconv"
+
 	"time"
 
 	corev1 "k8s.io/api/core/v1"
@@ -134,4 +137,54 @@ func ZZ_C12_edsIsolation() {
 	nondet.Reach("C12.eds.long-name", xName != "foo" && len(ys) > 0)
 	nondet.Reach("C12.eds.same-name-foreign-rs", sameName && len(ys) > 0)
 	nondet.Reach("C12.eds.foreign-matches-template", len(ys) > 0 && !xHasMatching)
+}
+
+// ZZ_C12_selectionIgnoresForeignPods: pods of other ExtendedDaemonSets are "never counted": the choice
+// of canary nodes ("preferring nodes whose daemon pods restarted least") depends on the restarts of
+// this ExtendedDaemonSet's own pods only.  Two worlds with the same three nodes and the same own pods
+// (arbitrary restart counts): in the second one an ExtendedDaemonSet of the same name in another
+// namespace, and one of another name in the same namespace, also run pods there, with arbitrary
+// restart counts.  One reconcile starts the canary in each world: the same nodes are selected.
+func ZZ_C12_selectionIgnoresForeignPods() {
+	own := []int32{nondet.Int32("own.node0.restarts", 0, 3), nondet.Int32("own.node1.restarts", 0, 3), nondet.Int32("own.node2.restarts", 0, 3)}
+	foreign := []int32{nondet.Int32("foreign.node0.restarts", 0, 9), nondet.Int32("foreign.node1.restarts", 0, 9), nondet.Int32("foreign.node2.restarts", 0, 9)}
+	foreignKind := nondet.String("foreign", "same-name-other-namespace", "other-name-same-namespace")
+	build := func(withForeign bool) *fakeapi.Client {
+		c, _ := zzCanaryStore(3, intstr.FromInt(1), -1)
+		for i := 0; i < 3; i++ {
+			node := "node" + strconv.Itoa(i)
+			c.Pods = append(c.Pods, &corev1.Pod{
+				ObjectMeta: metav1.ObjectMeta{Name: "own-" + node, Namespace: "ns", Labels: map[string]string{datadoghqv1alpha1.ExtendedDaemonSetNameLabelKey: "foo", datadoghqv1alpha1.ExtendedDaemonSetReplicaSetNameLabelKey: "foo-a"}},
+				Spec:       corev1.PodSpec{NodeName: node},
+				Status:     corev1.PodStatus{Phase: corev1.PodRunning, ContainerStatuses: []corev1.ContainerStatus{{Name: "agent", RestartCount: own[i]}}},
+			})
+			if withForeign {
+				ns, name := "ns2", "foo"
+				if foreignKind == "other-name-same-namespace" {
+					ns, name = "ns", "bar"
+				}
+				c.Pods = append(c.Pods, &corev1.Pod{
+					ObjectMeta: metav1.ObjectMeta{Name: "foreign-" + node, Namespace: ns, Labels: map[string]string{datadoghqv1alpha1.ExtendedDaemonSetNameLabelKey: name, datadoghqv1alpha1.ExtendedDaemonSetReplicaSetNameLabelKey: name + "-x"}},
+					Spec:       corev1.PodSpec{NodeName: node},
+					Status:     corev1.PodStatus{Phase: corev1.PodRunning, ContainerStatuses: []corev1.ContainerStatus{{Name: "agent", RestartCount: foreign[i]}}},
+				})
+			}
+		}
+		return c
+	}
+	alone, crowded := build(false), build(true)
+	_, err1 := zzReconcile(zzReconciler(alone), "ns", "foo")
+	_, err2 := zzReconcile(zzReconciler(crowded), "ns", "foo")
+	nondet.Assert("C12.selection.noerror", err1 == nil && err2 == nil)
+	s1, s2 := zzStoredEDS(alone, "ns", "foo"), zzStoredEDS(crowded, "ns", "foo")
+	nondet.Assert("C12.selection.canary-started", s1.Status.Canary != nil && s2.Status.Canary != nil && len(s1.Status.Canary.Nodes) == 1)
+	if s1.Status.Canary == nil || s2.Status.Canary == nil || len(s1.Status.Canary.Nodes) != 1 {
+		return
+	}
+	nondet.Assert("C12.selection.same-nodes-with-or-without-foreign-pods", len(s2.Status.Canary.Nodes) == 1 && s2.Status.Canary.Nodes[0] == s1.Status.Canary.Nodes[0])
+	for _, e := range crowded.Writes() {
+		nondet.Assert("C12.selection.foreign-pods-untouched", e.Kind != "Pod")
+	}
+	nondet.Observe("selected", s1.Status.Canary.Nodes[0])
+	nondet.Reach("C12.selection.least-restarted-is-not-node0", s1.Status.Canary.Nodes[0] != "node0")
 }
